@@ -88,7 +88,14 @@ def run_property(pid, tier, seed, extract, cfgs, here, known, t0, verbose=False,
             F = Facts(fp)
             F.cfg = cfg
             R = Report(pid, cfg)
-            mod.run(F, R)
+            try:
+                mod.run(F, R)
+            except Undecided as e_:
+                # an anchor of a later rule is missing: if rules that ran before it already report violations, those decide the
+                # verdict (the missing anchor is usually the same edit); otherwise the check is undecided
+                if not any(o['status'] == 'violated' for o in R.obs):
+                    raise
+                R.note('analysis stopped early (%s); violations found before that point are reported' % e_)
             floors = {} if os.environ.get('VERIF_NOFLOORS') else getattr(mod, 'FLOORS', {})
             has_violation = any(o['status'] == 'violated' for o in R.obs)
             for name, spec in floors.items():
